@@ -58,83 +58,66 @@ impl InstructionGenerator {
         match step {
             Some(s) => {
                 let step_pos = s.pos();
-                // load 0 to B
-                self.push_load(Variant::VInteger(0), pos);
-                self.push(Instruction::CopyAToB, pos);
                 // load step to A
                 self.generate_expression_instructions(s);
                 // A to D (step is in D)
                 self.push(Instruction::CopyAToD, pos);
-                // is step < 0 ?
-                self.push(Instruction::Less, pos);
-                self.jump_if_false("test-positive-or-zero", pos);
-                // negative step
-                self.generate_for_loop_instructions_positive_or_negative_step(
-                    &counter_var_name,
-                    statements.clone(),
-                    false,
-                    pos,
-                );
-                // jump out
-                self.jump("out-of-for", pos);
-                // PositiveOrZero: ?
-                self.label("test-positive-or-zero", pos);
-                // need to load it again into A because the previous "LessThan" op overwrote A
+                // is step = 0 ?
+                self.push_load(Variant::VInteger(0), pos);
+                self.push(Instruction::CopyAToB, pos);
                 self.push(Instruction::CopyDToA, pos);
-                // is step > 0 ?
-                self.push(Instruction::Greater, pos);
-                self.jump_if_false("zero", pos);
-                // positive step
-                self.generate_for_loop_instructions_positive_or_negative_step(
-                    &counter_var_name,
-                    statements,
-                    true,
-                    pos,
-                );
-                // jump out
-                self.jump("out-of-for", pos);
-                // Zero step
-                self.label("zero", pos);
+                self.push(Instruction::Equal, pos);
+                self.jump_if_false("non-zero-step", pos);
                 self.push(Instruction::Throw(RuntimeError::ForLoopZeroStep), step_pos);
-                self.label("out-of-for", pos);
+                self.label("non-zero-step", pos);
+                // the sign of the step is only known at run-time
+                self.generate_for_loop_body_instructions(&counter_var_name, statements, false, pos);
             }
             None => {
                 self.push_load(Variant::VInteger(1), pos);
                 // A to D (step is in D)
                 self.push(Instruction::CopyAToD, pos);
-                self.generate_for_loop_instructions_positive_or_negative_step(
-                    &counter_var_name,
-                    statements,
-                    true,
-                    pos,
-                );
-                self.label("out-of-for", pos);
+                self.generate_for_loop_body_instructions(&counter_var_name, statements, true, pos);
             }
         }
     }
 
-    fn generate_for_loop_instructions_positive_or_negative_step(
+    /// Generates the loop test, the loop body and the increment of the counter.
+    /// The loop body is emitted only once, so that the statements and the labels
+    /// it contains have a single address.
+    fn generate_for_loop_body_instructions(
         &mut self,
         counter_var_name: &Expression,
         statements: Statements,
-        is_positive: bool,
+        is_known_positive: bool,
         pos: Position,
     ) {
-        let loop_label = if is_positive {
-            "positive-loop"
-        } else {
-            "negative-loop"
-        };
         // loop point
-        self.label(loop_label, pos);
-        // upper bound from C to B
-        self.push(Instruction::CopyCToB, pos);
-        // counter to A
-        self.load_counter(counter_var_name, pos);
-        if is_positive {
+        self.label("for-loop", pos);
+        if is_known_positive {
+            // upper bound from C to B
+            self.push(Instruction::CopyCToB, pos);
+            // counter to A
+            self.load_counter(counter_var_name, pos);
             self.push(Instruction::LessOrEqual, pos);
         } else {
+            // is step (register D) < 0 ?
+            self.push_load(Variant::VInteger(0), pos);
+            self.push(Instruction::CopyAToB, pos);
+            self.push(Instruction::CopyDToA, pos);
+            self.push(Instruction::Less, pos);
+            self.jump_if_false("positive-step", pos);
+            // negative step: counter >= upper bound
+            self.push(Instruction::CopyCToB, pos);
+            self.load_counter(counter_var_name, pos);
             self.push(Instruction::GreaterOrEqual, pos);
+            self.jump("for-test", pos);
+            // positive step: counter <= upper bound
+            self.label("positive-step", pos);
+            self.push(Instruction::CopyCToB, pos);
+            self.load_counter(counter_var_name, pos);
+            self.push(Instruction::LessOrEqual, pos);
+            self.label("for-test", pos);
         }
         self.jump_if_false("out-of-for", pos);
 
@@ -156,7 +139,8 @@ impl InstructionGenerator {
         self.store_counter(counter_var_name, pos);
 
         // back to loop
-        self.jump(loop_label, pos);
+        self.jump("for-loop", pos);
+        self.label("out-of-for", pos);
     }
 
     pub fn generate_do_loop_instructions(&mut self, do_loop: DoLoop, pos: Position) {
